@@ -153,7 +153,7 @@ type rawChan struct {
 	errCh chan error
 }
 
-const reqTimeout = 3 * time.Second
+const reqTimeout = 5 * time.Second
 
 func openRaw(url string) (*rawChan, error) {
 	ctx, cancel := context.WithTimeout(context.Background(), 15*time.Second)
@@ -787,7 +787,7 @@ func finish(t interface {
 
 // ---------------------------------------------------------------------------
 
-// TestExhaustive enumerates request type x token kind; per cell ev.Pick(4, 200)
+// TestExhaustive enumerates request type x token kind; per cell ev.Pick(8, 200)
 // value seeds, alternating aimed / unaimed.
 func TestExhaustive(t *testing.T) {
 	rec.Assume("implemented services (strict oracle): " + strings.Join(sortedKeys(implemented), " ") + "; every other service: any Bad service result accepted")
@@ -803,7 +803,7 @@ func TestExhaustive(t *testing.T) {
 	for _, s := range skipped {
 		rec.Class("skipped-not-a-request:" + s)
 	}
-	per := ev.Pick(4, 200)
+	per := ev.Pick(8, 200)
 	base := int(ev.Seed()) * 1_000_000
 	for d := 0; d < per; d++ {
 		for ti, typ := range types {
